@@ -4,7 +4,7 @@ For each prioritised add_conflict after lifting to transactions (hi, lo): both f
 some other transaction of SpecConf(hi) runs. Chains and triangles with mixed LEFT/RIGHT/UNDEFINED,
 priorities on methods lifted to their callers, combined with schedule_before."""
 
-from contracts import corelib
+from contracts import corelib, schedfn
 
 PROPERTY = "C08"
 LEVEL = "proof"
@@ -13,10 +13,12 @@ TECHNIQUE = "contracts on the elaborated netlist of generated designs (real mana
 
 
 def configs(tier):
-    return corelib.design_configs(tier, schedulers=("eager",))
+    return corelib.design_configs(tier, schedulers=("eager",)) + schedfn.configs(tier)
 
 
 def run(cfg, ctx):
+    if cfg.get("kind") == "schedfn":
+        return schedfn.run(PROPERTY, cfg, ctx)
     corelib.run_core(PROPERTY, cfg, ctx)
 
 
@@ -32,4 +34,20 @@ def _patch_priority():
     MG.TransactionManager._conflict_graph = staticmethod(ns["_conflict_graph"])
 
 
-CANARIES = [{"name": "left_priority_reversed", "cfg": {"design": "conflict_tm", "scheduler": "eager"}, "patch": _patch_priority, "expect": r"low_runs_only_if"}]
+def _patch_scheduler_order():
+    import transactron.core.schedulers as S
+    from amaranth import Module, Cat
+
+    def sched(method_map, gr, cc, porder):
+        m = Module()
+        ccl = sorted(cc, key=lambda t: -porder[t])  # priority order reversed
+        for k, transaction in enumerate(ccl):
+            conflicts = [ccl[j].run for j in range(k) if ccl[j] in gr[transaction]]
+            m.d.comb += transaction.run.eq(transaction.ready & transaction.runnable & ~Cat(conflicts).any())
+        return m
+
+    S.eager_deterministic_cc_scheduler = sched
+
+
+CANARIES = [{"name": "scheduler_sorts_by_descending_porder", "cfg": {"kind": "schedfn", "n": 2, "graphs": [0, 2]}, "patch": _patch_scheduler_order, "expect": r"scheduler\[.*blocked_only_by_earlier"},
+            {"name": "left_priority_reversed", "cfg": {"design": "conflict_tm", "scheduler": "eager"}, "patch": _patch_priority, "expect": r"low_runs_only_if"}]
